@@ -8,6 +8,8 @@ import (
 	"sort"
 	"strconv"
 	"strings"
+
+	"github.com/AsaiYusuke/jsonpath"
 )
 
 // C14 — functions see every selected value once, in order; aggregates see all of them.
@@ -62,6 +64,12 @@ type c14Sim struct {
 // c14Simulate pushes vals (in result order; single: the path that produced them is
 // single-valued) through the functions, as the property states the protocol.
 func c14Simulate(vals []interface{}, single bool, fns []Fn) c14Sim {
+	return c14SimulateWith(vals, single, fns, filterImpl, aggImpl)
+}
+
+// c14SimulateWith: the same protocol with the given implementations of the registry's names.
+func c14SimulateWith(vals []interface{}, single bool, fns []Fn, filterImpl map[string]func(interface{}) (interface{}, error),
+	aggImpl map[string]func([]interface{}) (interface{}, error)) c14Sim {
 	sim := c14Sim{Failed: map[string]bool{}, FailedAt: map[int]bool{}}
 	cur := vals
 	k := 0
@@ -172,6 +180,9 @@ func c14Members(v interface{}) ([]interface{}, bool) {
 }
 
 func (c14) Exec(seed int64, i int, tier string) Record {
+	if i%20 == 11 {
+		return c14RetrieveCase(CaseRng(seed, "C14", i))
+	}
 	r := CaseRng(seed, "C14", i)
 	family := []string{"tail", "infil", "any", "logic"}[r.Weighted([]int{47, 21, 17, 15})]
 	o := DefaultOpts()
@@ -866,4 +877,267 @@ func c14Readable(log string) string {
 		}
 		return strconv.Quote(b.String())
 	})
+}
+
+// ---------- class retrieve-sequence: jsonpath.Retrieve several times, a fresh Config each time ----------
+//
+// One case in twenty. The same path and document go through jsonpath.Retrieve two or three times in a
+// row; every call gets a freshly built Config: new recording closures, and for every name of the
+// registry either the registry's implementation or ANOTHER implementation under the same name
+// (`twice` adds 1, `wrap` builds an object, `failAll` succeeds, `failOdd` fails on even numbers,
+// `count` adds 100, `max` is the minimum, `first` the last, `list` reversed, `failAgg` the length).
+// Every call must call the functions of ITS OWN Config: the log recorded by its closures and its
+// result are compared with (a) Parse + call under a Config with the same implementations, (b) for
+// function tails after function-free steps the simulation of the call protocol (c14SimulateWith)
+// with those implementations, and the closures of the other calls must stay silent meanwhile. The
+// first call that uses the plain registry is also put to jpv-impl (`calls`).
+var c14AltFilter = map[string]func(interface{}) (interface{}, error){
+	"id": fnID,
+	"twice": func(v interface{}) (interface{}, error) {
+		if f, ok := v.(float64); ok {
+			return f + 1, nil
+		}
+		return nil, errFn
+	},
+	"wrap":    func(v interface{}) (interface{}, error) { return map[string]interface{}{"w": v}, nil },
+	"failAll": func(v interface{}) (interface{}, error) { return v, nil },
+	"failOdd": func(v interface{}) (interface{}, error) {
+		if f, ok := v.(float64); ok && int64(f)%2 == 0 {
+			return nil, errFn
+		}
+		return v, nil
+	},
+}
+
+var c14AltAgg = map[string]func([]interface{}) (interface{}, error){
+	"count": func(vs []interface{}) (interface{}, error) { return float64(len(vs) + 100), nil },
+	"max": func(vs []interface{}) (interface{}, error) {
+		if len(vs) == 0 {
+			return nil, errFn
+		}
+		var m float64
+		for i, v := range vs {
+			f, ok := v.(float64)
+			if !ok {
+				return nil, errFn
+			}
+			if i == 0 || f < m {
+				m = f
+			}
+		}
+		return m, nil
+	},
+	"first": func(vs []interface{}) (interface{}, error) {
+		if len(vs) == 0 {
+			return nil, errFn
+		}
+		return vs[len(vs)-1], nil
+	},
+	"list": func(vs []interface{}) (interface{}, error) {
+		out := make([]interface{}, len(vs))
+		for i, v := range vs {
+			out[len(vs)-1-i] = v
+		}
+		return out, nil
+	},
+	"failAgg": func(vs []interface{}) (interface{}, error) { return float64(len(vs)), nil },
+}
+
+// c14ImplSet: for every name the registry's implementation or the other one (alt[name]).
+func c14ImplSet(alt map[string]bool) (map[string]func(interface{}) (interface{}, error), map[string]func([]interface{}) (interface{}, error)) {
+	fi := map[string]func(interface{}) (interface{}, error){}
+	ai := map[string]func([]interface{}) (interface{}, error){}
+	for n, f := range filterImpl {
+		fi[n] = f
+		if alt[n] {
+			fi[n] = c14AltFilter[n]
+		}
+	}
+	for n, f := range aggImpl {
+		ai[n] = f
+		if alt[n] {
+			ai[n] = c14AltAgg[n]
+		}
+	}
+	return fi, ai
+}
+
+// c14RecConfigWith: a Config with fresh recording closures around the given implementations.
+func c14RecConfigWith(fi map[string]func(interface{}) (interface{}, error), ai map[string]func([]interface{}) (interface{}, error), log *c12Log) jsonpath.Config {
+	c := jsonpath.Config{}
+	for name, f := range fi {
+		name, f := name, f
+		c.SetFilterFunction(name, func(v interface{}) (interface{}, error) {
+			r, err := f(v)
+			log.Calls = append(log.Calls, c12Call{Name: name, Arg: v, Snap: ValSexp(v), Err: err != nil, Acc: c12IsAcc(v)})
+			return r, err
+		})
+	}
+	for name, f := range ai {
+		name, f := name, f
+		c.SetAggregateFunction(name, func(vs []interface{}) (interface{}, error) {
+			r, err := f(vs)
+			log.Calls = append(log.Calls, c12Call{Agg: true, Name: name, Args: vs, Snap: ValsSexp(vs), Err: err != nil})
+			return r, err
+		})
+	}
+	return c
+}
+
+func c14RetrieveCase(r *Rng) Record {
+	o := DefaultOpts()
+	o.ErrBias = 6
+	var doc interface{}
+	for try := 0; try < 4; try++ {
+		doc = GenDoc(r, o, 0)
+		if _, ok := c14Members(doc); ok {
+			break
+		}
+	}
+	plain := Config(false, nil)
+	var p *Path
+	tail := r.Chance(65)
+	if tail {
+		o.Funcs = false
+		for try := 0; try < 6; try++ {
+			p = o.genPathFrom(r, doc, doc, HeadRoot, 4, false)
+			if Run(Render(p, nil), doc, &plain).OK {
+				break
+			}
+		}
+		p.Fns = c14GenFns(r, r.Weighted([]int{0, 45, 40, 15}))
+	} else {
+		o.Funcs = true
+		for try := 0; try < 6; try++ {
+			p = o.genPathFrom(r, doc, doc, HeadRoot, 4, true)
+			if len(p.Fns) == 0 && r.Chance(50) {
+				p.Fns = c14GenFns(r, r.Range(1, 3))
+			}
+			if n := c12AddFns(r, o, p, 45); n == 0 && len(p.Fns) == 0 {
+				continue
+			}
+			if Run(Render(p, nil), doc, &plain).OK || r.Chance(15) {
+				break
+			}
+		}
+	}
+	text := Render(p, r)
+	N := 2 + r.Weighted([]int{60, 40})
+	rec := Record{Text: text, Doc: JSONText(doc), Info: map[string]interface{}{}, Tags: append(stepTags(p), "family:retrieve-sequence")}
+	if tail {
+		rec.Tags = append(rec.Tags, "retrieve-sequence:tail", "fns:"+c14FnOrder(p.Fns))
+	} else {
+		rec.Tags = append(rec.Tags, "retrieve-sequence:any")
+	}
+	// which names the path uses
+	used := map[string]bool{}
+	for _, n := range c02FnNames(text) {
+		used[n] = true
+	}
+	var names []string
+	for n := range used {
+		names = append(names, n)
+	}
+	sort.Strings(names)
+	var v0 Outcome
+	if tail {
+		v0 = Run(Render(&Path{Head: HeadRoot, Steps: p.Steps}, nil), doc, &plain)
+		Render(p, nil)
+	}
+	logs := make([]*c12Log, N)
+	lens := make([]int, N)
+	var variants []string
+	askedLean := false
+	anyCalls, anyAlt := false, false
+	for k := 0; k < N; k++ {
+		alt := map[string]bool{}
+		var altNames []string
+		mode := r.Weighted([]int{35, 45, 20}) // the registry / some names replaced / every used name replaced
+		for _, n := range names {
+			if n == "id" {
+				continue
+			}
+			if mode == 2 || (mode == 1 && r.Chance(60)) {
+				alt[n] = true
+				altNames = append(altNames, n)
+			}
+		}
+		variants = append(variants, "call "+fmt.Sprint(k)+": other implementations of ["+strings.Join(altNames, " ")+"]")
+		anyAlt = anyAlt || len(altNames) > 0
+		fi, ai := c14ImplSet(alt)
+		logs[k] = &c12Log{}
+		cfg := c14RecConfigWith(fi, ai, logs[k])
+		out := c02Retrieve(text, doc, &cfg)
+		if k == 0 && !out.OK && c02IsParseErr(out.ErrKind) {
+			rec.Viol = "generated path was rejected: " + out.Detail()
+			rec.Class = "parse-reject"
+			return rec
+		}
+		if c12Abnormal(out) {
+			rec.Viol = fmt.Sprintf("Retrieve %d of %d: abnormal outcome: %s", k+1, N, clip(out.Detail(), 600))
+			rec.Class = "abnormal"
+			return rec
+		}
+		got := logs[k].Sexps()
+		// the closures of the other calls stayed silent
+		for j := 0; j < k; j++ {
+			if len(logs[j].Calls) != lens[j] {
+				rec.Viol = fmt.Sprintf("Retrieve %d of %d (same path, same document, a fresh Config) called functions of the Config passed to Retrieve %d: %s; its own functions recorded: %s",
+					k+1, N, j+1, clip(c14Readable((&c12Log{Calls: logs[j].Calls[lens[j]:]}).Sexps()), 400), clip(c14Readable(got), 300))
+				rec.Class = "call-protocol"
+				rec.Info["configs"] = variants
+				return rec
+			}
+		}
+		lens[k] = len(logs[k].Calls)
+		anyCalls = anyCalls || lens[k] > 0
+		// (a) Parse + call under a Config with the same implementations
+		refLog := &c12Log{}
+		refCfg := c14RecConfigWith(fi, ai, refLog)
+		ref := Run(text, DeepCopy(doc), &refCfg)
+		if e := refLog.Sexps(); e != got {
+			rec.Viol = fmt.Sprintf("Retrieve %d of %d: the functions of its own Config recorded [%s]; Parse + call with the same implementations records [%s]", k+1, N, clip(c14Readable(got), 400), clip(c14Readable(e), 400))
+			rec.Class = "call-protocol"
+		} else if e, g := c05Canon(ref), c05Canon(out); e != g {
+			rec.Viol = fmt.Sprintf("Retrieve %d of %d answers %s; Parse + call with the implementations of its own Config answers %s", k+1, N, clip(g, 300), clip(e, 300))
+			rec.Class = "result"
+		}
+		// (b) the protocol itself, for function tails
+		if rec.Viol == "" && tail && v0.OK {
+			sim := c14SimulateWith(v0.Vals, c14Single(p.Steps), p.Fns, fi, ai)
+			if e := strings.Join(sim.Calls, " "); e != got {
+				rec.Viol = fmt.Sprintf("Retrieve %d of %d: expected calls (implementations of its own Config): %s / recorded: %s", k+1, N, clip(c14Readable(e), 400), clip(c14Readable(got), 400))
+				rec.Class = "call-protocol"
+			} else if len(sim.Out) > 0 && (!out.OK || !reflect.DeepEqual(out.Vals, sim.Out)) {
+				rec.Viol = fmt.Sprintf("Retrieve %d of %d: expected results %s (implementations of its own Config), got %s", k+1, N, clip(ValsSexp(sim.Out), 300), clip(out.Detail(), 300))
+				rec.Class = "result"
+			} else if len(sim.Out) == 0 && out.OK {
+				rec.Viol = fmt.Sprintf("Retrieve %d of %d: nothing is left after the functions of its own Config, but it returns %s", k+1, N, clip(ValsSexp(out.Vals), 300))
+				rec.Class = "result"
+			}
+		}
+		if rec.Viol != "" {
+			rec.Info["configs"] = variants
+			return rec
+		}
+		if len(altNames) == 0 && !askedLean {
+			askedLean = true
+			exp := "(q)"
+			if lens[k] > 0 {
+				exp = "(q " + got + ")"
+			}
+			rec.Q = append(rec.Q, LeanQ{Driver: "impl", Line: "(q calls f " + p.Sexp() + " " + ValSexp(doc) + ")", Expect: exp,
+				What: fmt.Sprintf("calls recorded by Retrieve %d of %d vs Impl", k+1, N)})
+		}
+	}
+	rec.Info["configs"] = variants
+	rec.Tags = append(rec.Tags, fmt.Sprintf("retrieve-sequence:%d-calls", N))
+	if anyAlt {
+		rec.Tags = append(rec.Tags, "retrieve-sequence:other-implementation-under-same-name")
+	}
+	if anyCalls {
+		rec.Tags = append(rec.Tags, "retrieve-sequence:functions-called")
+		rec.Key = "retrieve-sequence/" + shapeKey(p) + "/" + c14FnOrder(p.Fns) + fmt.Sprint(N, anyAlt)
+	}
+	return rec
 }
